@@ -7,3 +7,6 @@ ENGINES = [
 NOTES = ("All checks rebuild what they need from /repo's working tree through bin/vbuild.py (content-hash object cache under /verif/.cache). "
          "Exit 2 = could not decide (build failure on a changed tree or too few non-trivial cases). Known findings: /verif/known_findings.json.")
 NOT_APPLICABLE = {}
+
+# properties whose check is finished, swept over seeds and registered (everything else is listed under not_applicable)
+CLAIMED = ["C01", "C08", "C09"]
